@@ -479,6 +479,11 @@ def chainVerify (s : ChainSt) (hEpoch hCompact : Nat) : Option CtxVerdict := do
 /-- primary reward of the block just appended (`EpochExt::block_reward(number)` of its own epoch) -/
 def tipBlockReward (s : ChainSt) : Option Nat := blockReward s.cur s.tipNumber
 
+/-- secondary issuance of the block just appended (`EpochExt::secondary_block_issuance(number,
+consensus.secondary_epoch_reward())` of its own epoch) -/
+def tipSecondaryIssuance (s : ChainSt) (secondaryEpochReward : Nat) : Option Nat :=
+  secondaryBlockIssuance s.cur s.tipNumber secondaryEpochReward
+
 /-- run the whole-chain view over `(timestamp, uncles)` pairs: the final state -/
 def chainRun (s : ChainSt) : List (Nat × Nat) → Option ChainSt
   | [] => some s
